@@ -389,10 +389,10 @@ def cases(tier, seed):
             add(front, 2, 0, order, [[1, 0], [1, 3]], [1, 3])
         if quick:
             for order in _orders(2, 1):
-                add(front, 2, 1, order, [[1], [1, 0, 3]], [1, 3], None, 40)
-            # two events: timing-focused families (kinds restricted)
+                add(front, 2, 1, order, [[1], [1, 0, 3] if front == 'v2' else [1, 0]], [1, 3], None, 40)
+            # two events: timing-focused families (kinds restricted; the legacy front-end gets the smaller menu in quick)
             add(front, 2, 2, 'xxee', [[1], [1, 0]], [1], [['data'], ['data']], 60)
-            add(front, 2, 2, 'xexe', [[1], [1]], [1], [['nack', 'cancel'], ['data', 'nack']], 60)
+            add(front, 2, 2, 'xexe', [[1], [1]], [1], [['nack', 'cancel'] if front == 'v2' else ['nack'], ['data', 'nack']], 60)
         else:
             for order in _orders(2, 1):
                 add(front, 2, 1, order, [[1, 0], [1, 3]], [1, 3], None, 100)
